@@ -26,11 +26,13 @@ ASSUMPTIONS = [
     "each step is followed by 4 sleep(0) drains, enough for every ready task to run to its next await",
 ]
 SIZES = {"quick": 600, "thorough": 6000}
-EXHAUSTIVE_NOTE = ("every schedule of N<=3 assignments (coroutine / 1- or 2-yield async generator / plain value) x every "
-                   "causally possible completion order x drain / no drain between consecutive assignments (param variant)")
+EXHAUSTIVE_NOTE = ("param variant: every schedule of N assignments (coroutine / 1- or 2-yield async generator / plain value / "
+                   "synchronous reference) x every causally possible completion order x drain / no drain between consecutive "
+                   "assignments; thorough tier: all N<=3; quick tier: all N<=2 and N=3 except the kind tuples with two 2-yield "
+                   "generators or (without any plain/synchronous assignment) two 1-yield generators")
 
-KINDS = ["coro", "agen1", "agen2", "plain"]
-NFUT = {"coro": 1, "agen1": 1, "agen2": 2, "plain": 0}
+KINDS = ["coro", "agen1", "agen2", "plain", "sref"]       # sref = a synchronous reference (a Parameter of another object)
+NFUT = {"coro": 1, "agen1": 1, "agen2": 2, "plain": 0, "sref": 0}
 
 
 def _schedules(kinds):
@@ -60,7 +62,9 @@ def enumerate_cases(tier):
     maxn = 3
     for n in range(1, maxn + 1):
         for kinds in itertools.product(KINDS, repeat=n):
-            if all(k == "plain" for k in kinds):
+            if all(k in ("plain", "sref") for k in kinds):
+                continue
+            if tier == "quick" and n == 3 and kinds.count("sref") + kinds.count("plain") == 0 and kinds.count("agen1") >= 2:
                 continue
             if tier == "quick" and n == 3 and kinds.count("agen2") >= 2:
                 continue            # the largest schedule families are left to the thorough tier
@@ -115,6 +119,8 @@ def _result(kinds, i, j=None):
     k = kinds[i]
     if k == "plain":
         return f"p{i}"
+    if k == "sref":
+        return f"s{i}"
     if k == "coro":
         return f"r{i}"
     return f"g{i}.{j if j is not None else NFUT[k] - 1}"
@@ -122,7 +128,7 @@ def _result(kinds, i, j=None):
 
 def _owner(v):
     """assignment index a recorded value belongs to"""
-    if isinstance(v, str) and v[:1] in "prg" and v[1:2].isdigit():
+    if isinstance(v, str) and v[:1] in "prgs" and v[1:2].isdigit():
         return int(v[1:].split(".")[0])
     return None
 
@@ -131,6 +137,7 @@ async def _run_param(case, res):
     kinds = case["kinds"]
     P = type("P", (param.Parameterized,), {"x": param.Parameter(default="init", allow_refs=True)})
     p = P()
+    S = type("S", (param.Parameterized,), {"v": param.Parameter(default="s?")})
     seen = []
     p.param.watch(lambda e: seen.append(e.new), "x")
     loop = asyncio.get_running_loop()
@@ -143,6 +150,8 @@ async def _run_param(case, res):
         k = kinds[i]
         if k == "plain":
             return f"p{i}"
+        if k == "sref":
+            return S(v=f"s{i}").param.v
         if k == "coro":
             async def coro():
                 return await futs[(i, 0)]
@@ -158,7 +167,7 @@ async def _run_param(case, res):
     for step in case["steps"]:
         if step[0] == "assign":
             i = step[1]
-            if kinds[i] == "plain" and any(not f.done() for (a, _j), f in futs.items() if a < i):
+            if kinds[i] in ("plain", "sref") and any(not f.done() for (a, _j), f in futs.items() if a < i):
                 pending_when_plain = True
             p.x = make_ref(i)
             last_assigned = i
@@ -170,8 +179,8 @@ async def _run_param(case, res):
                 futs[(i, j)].set_result(_result(kinds, i, j))
             await _drain()
         # a plain value stays until the next assignment
-        if last_assigned is not None and kinds[last_assigned] == "plain" and p.x != f"p{last_assigned}":
-            res.fail("C10.plain_value_overwritten", f"after {step!r}: the plain value p{last_assigned} assigned last was replaced by "
+        if last_assigned is not None and kinds[last_assigned] in ("plain", "sref") and p.x != _result(kinds, last_assigned):
+            res.fail("C10.plain_value_overwritten", f"after {step!r}: the value {_result(kinds, last_assigned)} assigned last was replaced by "
                                                     f"{p.x!r} (steps {case['steps']!r}, kinds {kinds!r})")
             break
     await _drain(8)
